@@ -238,6 +238,13 @@ def task_accessor_grid(ctx: Ctx) -> None:
     for f, mx in (("hours", 24), ("minutes", 1440), ("seconds", 86400), ("milliseconds", 86400 * 10**3), ("ticks", DAY // 100), ("nanoseconds", DAY)):
         for v in (-(2**63), -1, 0, 1, mx - 1, mx, mx + 1, 2**31, 2**63, 10**30):
             ctx.case("lt_factory", {"f": f, "args": [v]})
+        # arguments whose nanosecond product wraps around 2^32 / 2^63 / 2^64 / 2^128 into [0, 24 h): must be rejected
+        u = UNITS[f]
+        for bits in (32, 62, 63, 64, 65, 96, 128):
+            for k in (1, 2, 3, 5):
+                base = -(-(k << bits) // u)  # smallest v with v*u >= k*2^bits
+                for v in (base, base + 1, base + mx // 2, (k << bits), (k << bits) + 1, -(k << bits), (k << bits) + mx - 1):
+                    ctx.case("lt_factory", {"f": f, "args": [v]})
 
 
 def task_hyp(ctx: Ctx, shard: int, n: int) -> None:
